@@ -23,7 +23,7 @@ def shape(node, inp):
         return kids
     if rule.expand1 and not alt.alias and len(kids) == 1:
         return [kids[0]]
-    return [(alt.alias or rule.name,) + tuple(kids)]
+    return [(alt.alias or rule.label,) + tuple(kids)]
 
 
 class _tok(tuple):
@@ -49,7 +49,7 @@ def unshaped(node, inp):
     if kind == 'none':
         return None
     _, alt, children, i, j = node
-    return (alt.alias or alt.rule.name,) + tuple(unshaped(c, inp) for c in children if c[0] != 'none')
+    return (alt.alias or alt.rule.label,) + tuple(unshaped(c, inp) for c in children if c[0] != 'none')
 
 
 def of_lark(t):
@@ -161,7 +161,7 @@ def shape_spans(node, inp, extent=yield_span):
         return kids
     if rule.expand1 and not alt.alias and len(kids) == 1:
         return [kids[0]]
-    return [_node(alt.alias or rule.name, extent(node), kids)]
+    return [_node(alt.alias or rule.label, extent(node), kids)]
 
 
 def expand_ambig(t):
